@@ -23,6 +23,9 @@ PATS = {
         {"class": "memory", "base": None, "offset": "imd", "index": "gpr", "scale": 8},
         {"class": "memory", "base": None, "offset": "imd", "index": None, "scale": 1},
         {"class": "memory", "base": "*", "offset": "*", "index": None, "scale": "*"},
+        # any index register, but a definite scale
+        {"class": "memory", "base": "gpr", "offset": "*", "index": "*", "scale": 1},
+        {"class": "memory", "base": "*", "offset": "*", "index": "*", "scale": 8},
     ],
     "aarch64": [
         {"class": "register", "prefix": "x"}, {"class": "register", "prefix": "w"},
@@ -55,15 +58,20 @@ PATS = {
          "pre_indexed": False, "post_indexed": False},
         {"class": "memory", "base": "x", "offset": None, "index": "x", "scale": 8,
          "pre_indexed": False, "post_indexed": False},
+        # any index register, but a definite scale
+        {"class": "memory", "base": "x", "offset": "*", "index": "*", "scale": 1,
+         "pre_indexed": False, "post_indexed": False},
+        {"class": "memory", "base": "x", "offset": "*", "index": "*", "scale": 8,
+         "pre_indexed": False, "post_indexed": False},
     ],
 }
 
 TEXTS = {
     "x86": ["%rax", "%eax", "%r10d", "%al", "%xmm3", "%ymm3", "%zmm3", "%mm3", "$5", "$-0x10",
-            ".L1", "(%rax)", "8(%rax)", "(%rax,%rbx)", "(%rax,%rbx,8)", "8(%rax,%rbx,8)",
+            "$0", ".L1", "(%rax)", "8(%rax)", "(%rax,%rbx)", "(%rax,%rbx,8)", "8(%rax,%rbx,8)",
             "8(,%rbx,8)", "16", "-8(%rax,%rbx,1)", "sym(%rax)", "sym(%rax,%rbx,8)"],
     "aarch64": ["x3", "w3", "d3", "q3", "s3", "b3", "h3", "v3.2d", "v3.4s", "v3.d[1]", "z3.d",
-                "z3.s", "p3", "p3/m", "#5", "#0x10", "#1.5", "#1.5e+0f", "label1", "eq", "ne",
+                "z3.s", "p3", "p3/m", "#5", "#0", "#0x10", "#1.5", "#1.5e+0f", "label1", "eq", "ne",
                 "[x1]", "[x1, #8]", "[x1, x2]", "[x1, x2, lsl #3]", "[x1, #8]!", "[x1], #8",
                 "[sp, #16]", "[x1, sym]"],
 }
